@@ -3,7 +3,7 @@ CONSTANT AETexts = {"absent", "gzip", "gzip, br", "zstd, gzip", "gzip, deflate, 
 CONSTANT Statuses = {200, 204, 206, 304, 404}
 CONSTANT PreCEs = {"none", "gzip", "br", "zstd", "deflate", "identity"}
 CONSTANT ETags = {"none", "strong", "weak"}
-CONSTANT PatIdx = {1, 2, 3, 4, 5, 6, 7, 8, 9, 10, 11, 12, 13, 14, 15, 16, 17}
+CONSTANT PatIdx = {1, 2, 3, 4, 5, 6, 7, 8, 9, 10, 11, 12, 13, 14, 15, 16, 17, 18, 19}
 CONSTANT LevelsA = {0, 1, 9}
 CONSTANT LevelsB = {0, 9}
 CONSTANT MinLens = {0, 50}
